@@ -596,6 +596,8 @@ func retype(m map[string]any) map[string]any {
 	return m
 }
 
+var exitWith = os.Exit
+
 func main() {
 	prop := flag.String("prop", "C18", "C18 or C19")
 	seed := flag.Uint64("seed", 1, "")
@@ -636,6 +638,7 @@ func main() {
 		os.Exit(3)
 	}
 	defer func() { srv.Process.Kill(); srv.Wait() }()
+	exitWith = func(code int) { srv.Process.Kill(); srv.Wait(); os.RemoveAll(tmp); os.Exit(code) }
 	base := "http://" + addr
 	for i := 0; i < 100; i++ {
 		if c, err := net.DialTimeout("tcp", addr, 100*time.Millisecond); err == nil {
@@ -869,7 +872,7 @@ func main() {
 	model, err := runDriver(*driver, lines)
 	if err != nil {
 		fmt.Printf(`{"error":"driver: %v"}`+"\n", err)
-		os.Exit(2)
+		exitWith(2)
 	}
 	var viol []violation
 	statuses := map[int]int{}
@@ -929,7 +932,7 @@ func main() {
 	}
 	json.NewEncoder(os.Stdout).Encode(out)
 	if len(viol) > 0 {
-		os.Exit(1)
+		exitWith(1)
 	}
 }
 
